@@ -79,11 +79,23 @@ func (w *recWatcher) drain() []string {
 func (w *recWatcher) UpdateDesc(d *bridgedesc.Target) { w.add("ok:" + showTarget(d)) }
 func (w *recWatcher) ReportError(err error)           { w.add(fmt.Sprintf("err:%d", int(status.Code(err)))) }
 
-func msgName(m bridgedesc.Message) string {
+// msgName is the full name of a method's input/output message type; a trailing "?" marks a
+// placeholder descriptor (the type is defined in no file of the delivered registry).
+func msgName(m bridgedesc.Message) (name string) {
 	if m == nil {
 		return "-"
 	}
-	return tok(string(m.New().ProtoReflect().Descriptor().FullName()))
+	defer func() {
+		if r := recover(); r != nil {
+			name = "unusable?"
+		}
+	}()
+	d := m.New().ProtoReflect().Descriptor()
+	name = tok(string(d.FullName()))
+	if d.IsPlaceholder() {
+		name += "?"
+	}
+	return name
 }
 
 func showTarget(d *bridgedesc.Target) string {
